@@ -291,6 +291,32 @@ pub fn exec(op: &str, a: &[u64]) -> Result<Outcome, String> {
             o.check(calls.lock().unwrap().iter().all(|&c| c == 1), "not every item was processed exactly once");
             Ok(o)
         }
+        "pipeslow" => {
+            // one item is much slower than the others (real OS schedule): the consumer has to wait for it
+            let w = r.usize()?;
+            let n = r.usize()?;
+            let j = r.nat()?;
+            let ms = r.nat()?;
+            r.end()?;
+            Sched::uninstall();
+            let pipeline: Arc<dyn Fn(u64) -> u64 + Send + Sync> = Arc::new(move |x| {
+                if x == j {
+                    std::thread::sleep(Duration::from_millis(ms));
+                }
+                f(x)
+            });
+            let mut it = (0..n as u64).pipe(pipeline, w as u8);
+            let mut out = vec![];
+            while let Some(v) = it.next() {
+                out.push(v);
+            }
+            // an iterator that reported the end must not yield again
+            let after = it.next();
+            let mut o = Outcome::new(format!("ok {}", out.len()));
+            o.check(out.len() == n && out.iter().enumerate().all(|(i, v)| *v == f(i as u64)), "iteration ended before the last item / wrong order when one item is slow");
+            o.check(after.is_none(), "iterator yields again after reporting the end");
+            Ok(o)
+        }
         "bufdrop" => {
             // Buffered over an effectively unbounded upstream: consume k items, check the lookahead, drop, check the stop
             let b = r.usize()?;
@@ -499,6 +525,13 @@ pub fn run_c05(ctx: &mut Ctx) {
         for &(w, n, cap) in cfgs {
             let (runs, complete) = dfs(ctx, w, n, false, cap);
             ctx.count(&format!("dfs:W{w}:n{n}:runs{runs}:complete{complete}"));
+        }
+    }
+    // one slow item (the consumer must wait, however long an item takes)
+    if ctx.first_shard() {
+        let slow: &[(u64, u64, u64, u64)] = if ctx.thorough { &[(1, 5, 4, 1500), (2, 8, 3, 2500), (4, 6, 0, 4000), (3, 7, 6, 1200)] } else { &[(2, 6, 2, 1500)] };
+        for &(w, n, j, ms) in slow {
+            ctx.case("pipeslow", &[w, n, j, ms]);
         }
     }
     // uncontrolled stress
